@@ -228,7 +228,7 @@ def run(ctx):
                 transport_runs += r['runs']
             if ctx.expired():
                 ctx.incomplete('deadline hit after %d of %d tasks' % (done, len(tasks)))
-                pool.pool.terminate()
+                pool.cancel()
                 break
     finally:
         pool.close()
